@@ -100,7 +100,10 @@ var framerStart = time.Date(2023, 5, 10, 12, 0, 0, 0, time.UTC)
 
 // runStream feeds in to a fresh handler and records the delivered messages.
 // pace: 0 none, 1 producer yields, 2 consumer yields, 3 both + tiny sleeps.
-func runStream(w *tr.Writer, in []byte, cls string, inCap, outCap, pace int, rng *rand.Rand) {
+func runStream(w *tr.Writer, in []byte, cls string, inCap, outCap, pace int, grng *rand.Rand) {
+	// pacing draws come from a generator of their own: how many are made depends on timing, and the stream
+	// generator must produce the same cases for the same seed
+	rng := rand.New(rand.NewSource(grng.Int63()))
 	ra := pendingRef
 	if ra == nil {
 		ra = []string{}
@@ -332,6 +335,16 @@ func framer(args []string) {
 			j1, j2 := gen.Junk(rng, n, n%3), gen.Junk(rng, 1+rng.Intn(50), (n+1)%3)
 			s := gen.Cat(j1, a, j2, b, gen.Junk(rng, rng.Intn(4), 0))
 			victimize(s, [][2]int{{len(j1), len(j1) + len(a)}, {len(j1) + len(a) + len(j2), len(j1) + len(a) + len(j2) + len(b)}}, n, fmt.Sprintf("junk%d", n))
+		}
+		// the stream ENDS with a run of other data of exactly 1, 2, 3 bytes (after a frame, after a CRC failure, alone)
+		for n := 1; n <= 3; n++ {
+			a := gen.Frame(rng, gen.TypeClass(rng, n), 1+rng.Intn(20), 0)
+			b := gen.Frame(rng, gen.TypeClass(rng, n+4), 1+rng.Intn(20), 2)
+			s := gen.Cat(a, gen.Junk(rng, 2, 1), b, gen.Junk(rng, n, n%3))
+			victimize(s, [][2]int{{0, len(a)}, {len(a) + 2, len(a) + 2 + len(b)}}, 4+n, fmt.Sprintf("ends with junk%d", n))
+			if !corrupt {
+				run(gen.Junk(rng, n, (n+1)%3), fmt.Sprintf("only junk%d", n))
+			}
 		}
 		// junk runs of exactly 0..4 bytes around a frame (the victim in C12)
 		for n1 := 0; n1 <= 4; n1++ {
